@@ -249,6 +249,10 @@ def programs(tier: str) -> list[Program]:
         (["A", "A", "B"], [("A", 1), ("B", 1), ("A", 2), ("A", 3)]),
         (["A", "B", "C"], [("C", 1), ("A", 1), ("B", 1)]),
         (["A", "B", "C"], [("A", 1), ("B", 1), ("C", 1), ("A", 2)]),
+        # a type that occurs twice with another type in between: the returned list is ordered as the EXPECTED list
+        (["A", "B", "A"], [("A", 1), ("B", 1), ("A", 2)]),
+        (["A", "B", "A"], [("A", 1), ("A", 2), ("B", 1)]),
+        (["A", "B", "C", "B"], [("B", 1), ("A", 1), ("B", 2), ("C", 1)]),
         # value-equal events (same type, same fields) are still two events
         (["A", "A", "B"], [("A", 1), ("A", 1), ("B", 1)]),
         (["A", "A"], [("A", 1), ("A", 1), ("A", 1), ("A", 1)]),
